@@ -166,7 +166,7 @@ func runTwin(c *core.Ctx) []core.Obligation {
 			}
 			return r + "." + f
 		}
-		construct := "twin:" + tp.pkg + "." + name(tp.recvA, tp.fnA) + "~" + name(tp.recvB, tp.fnB)
+		construct := twinConstruct(tp)
 		if pkg == nil || fa == nil || fb == nil || c.Decl(fa) == nil || c.Decl(fb) == nil {
 			obs = append(obs, core.Ob("R-TWIN", construct, "-", "", core.Violated, "unresolved anchor"))
 			continue
@@ -227,6 +227,8 @@ var clipAllowed = []string{"X vs X", "X vs X", "Y vs Y", "Y vs Y", "u vs u", "uE
 // with the arguments in that fixed order (0, diag, u, v) resp. (diag, 0, u, v).
 var splitAllowed = []string{"0 vs diag", "diag vs 0", "X vs X", "X vs X", "Y vs Y", "Y vs Y", "u vs u", "v vs v"}
 
+var projSubst = map[string]string{"PlateCarreeProjection": "MercatorProjection"}
+
 var minMaxSubst = map[string]string{
 	"MinDistanceToPointTarget": "MaxDistanceToPointTarget", "MinDistanceToEdgeTarget": "MaxDistanceToEdgeTarget",
 	"MinDistanceToCellTarget": "MaxDistanceToCellTarget", "MinDistanceToShapeIndexTarget": "MaxDistanceToShapeIndexTarget",
@@ -265,29 +267,58 @@ var twinPairs = func() []twinPair {
 		twinPair{pkg: "s2", recvA: "Loop", fnA: "ContainsCell", recvB: "Polygon", fnB: "ContainsCell", props: []string{"C05"}, why: "loop and polygon version of the cell predicate", subst: map[string]string{"Loop": "Polygon"}},
 		twinPair{pkg: "s2", recvA: "Loop", fnA: "IntersectsCell", recvB: "Polygon", fnB: "IntersectsCell", props: []string{"C05"}, why: "loop and polygon version of the cell predicate", subst: map[string]string{"Loop": "Polygon"}},
 		twinPair{pkg: "s2", recvA: "Loop", fnA: "boundaryApproxIntersects", recvB: "Polygon", fnB: "boundaryApproxIntersects", props: []string{"C05"}, why: "loop and polygon version of the boundary test", subst: map[string]string{"Loop": "Polygon"}},
-		twinPair{pkg: "s2", recvA: "CellID", fnA: "ChildBegin", recvB: "CellID", fnB: "ChildEnd", props: []string{"C01"}, why: "first child and one-past-last child",
+		twinPair{pkg: "s2", recvA: "CellID", fnA: "ChildBegin", recvB: "CellID", fnB: "ChildEnd", props: []string{"C01", "C11", "C12"}, why: "first child and one-past-last child",
 			subst: map[string]string{"-": "+"}},
-		twinPair{pkg: "s2", recvA: "CellID", fnA: "ChildBeginAtLevel", recvB: "CellID", fnB: "ChildEndAtLevel", props: []string{"C01"}, why: "first and one-past-last descendant at a level",
+		twinPair{pkg: "s2", recvA: "CellID", fnA: "ChildBeginAtLevel", recvB: "CellID", fnB: "ChildEndAtLevel", props: []string{"C01", "C11", "C12"}, why: "first and one-past-last descendant at a level",
 			subst: map[string]string{"-": "+"}},
-		twinPair{pkg: "s2", recvA: "CellID", fnA: "RangeMin", recvB: "CellID", fnB: "RangeMax", props: []string{"C01"}, why: "first and last leaf",
+		twinPair{pkg: "s2", recvA: "CellID", fnA: "RangeMin", recvB: "CellID", fnB: "RangeMax", props: []string{"C01", "C11", "C12"}, why: "first and last leaf",
 			subst: map[string]string{"-": "+"}, allowed: []string{"- vs -"}}, // ci -/+ (lsb - 1): the inner minus is common
-		twinPair{pkg: "s2", recvA: "CellID", fnA: "Next", recvB: "CellID", fnB: "Prev", props: []string{"C01"}, why: "next and previous cell on the curve",
+		twinPair{pkg: "s2", recvA: "CellID", fnA: "Next", recvB: "CellID", fnB: "Prev", props: []string{"C01", "C11", "C12"}, why: "next and previous cell on the curve",
 			subst: map[string]string{"+": "-"}},
-		twinPair{pkg: "s2", recvA: "CellID", fnA: "NextWrap", recvB: "CellID", fnB: "PrevWrap", props: []string{"C01"}, why: "wrapping next and previous",
+		twinPair{pkg: "s2", recvA: "CellID", fnA: "NextWrap", recvB: "CellID", fnB: "PrevWrap", props: []string{"C01", "C11", "C12"}, why: "wrapping next and previous",
 			subst: map[string]string{"Next": "Prev", "-": "+"}},
 		twinPair{pkg: "s2", recvA: "PaddedCell", fnA: "EntryVertex", recvB: "PaddedCell", fnB: "ExitVertex", props: []string{"C06"}, why: "first and last vertex of the cell on the curve"},
 		twinPair{pkg: "s2", recvA: "", fnA: "NewClosestEdgeQuery", recvB: "", fnB: "NewFurthestEdgeQuery", props: c08, why: "constructors of the two query families", subst: minMaxSubst},
 		twinPair{pkg: "s2", recvA: "", fnA: "NewClosestEdgeQueryOptions", recvB: "", fnB: "NewFurthestEdgeQueryOptions", props: c08, why: "option constructors of the two query families", subst: minMaxSubst},
 		twinPair{pkg: "s2", recvA: "CrossingEdgeQuery", fnA: "splitUBound", recvB: "CrossingEdgeQuery", fnB: "splitVBound", props: []string{"C06"}, why: "u and v versions of the edge-bound split", byName: true,
 			subst: map[string]string{"X": "Y", "Y": "X", "u": "v", "v": "u", "diag": "diag"}, allowed: splitAllowed},
-		twinPair{pkg: "s2", recvA: "Cell", fnA: "latitude", recvB: "Cell", fnB: "longitude", props: []string{"C10"}, why: "latitude and longitude of a cell corner, used by Cell.RectBound",
+		twinPair{pkg: "s2", recvA: "Cell", fnA: "latitude", recvB: "Cell", fnB: "longitude", props: []string{"C10", "C12"}, why: "latitude and longitude of a cell corner, used by Cell.RectBound",
 			subst: map[string]string{"latitude": "longitude"}},
 		twinPair{pkg: "s2", recvA: "RegionCoverer", fnA: "Covering", recvB: "RegionCoverer", fnB: "InteriorCovering", props: []string{"C05"}, why: "covering and interior covering post-processing",
 			subst: map[string]string{"CellUnion": "InteriorCellUnion"}},
 		twinPair{pkg: "s2", recvA: "Polygon", fnA: "anyLoopContains", recvB: "Polygon", fnB: "anyLoopIntersects", props: []string{"C07"}, why: "existential loop tests of the polygon relations",
 			subst: map[string]string{"Contains": "Intersects"}},
+		twinPair{pkg: "s2", recvA: "", fnA: "updateEdgePairMinDistance", recvB: "", fnB: "updateEdgePairMaxDistance", props: []string{"C08", "C17"}, why: "edge-pair distance from the four vertex-edge cases", subst: minMaxSubst},
 		twinPair{pkg: "s2", recvA: "minDistance", fnA: "updateDistance", recvB: "maxDistance", fnB: "updateDistance", props: c08, why: "distance update of the two query families", subst: minMaxSubst},
 		twinPair{pkg: "s2", recvA: "", fnA: "NewMinDistanceToShapeIndexTarget", recvB: "", fnB: "NewMaxDistanceToShapeIndexTarget", props: c08, why: "constructors of the two ShapeIndex targets", subst: minMaxSubst},
+		twinPair{pkg: "s2", recvA: "minDistance", fnA: "fromChordAngle", recvB: "maxDistance", fnB: "fromChordAngle", props: c08, why: "distance wrappers of the two query families", subst: minMaxSubst},
+		twinPair{pkg: "s2", recvA: "queryOptions", fnA: "ClosestInclusiveDistanceLimit", recvB: "queryOptions", fnB: "FurthestInclusiveDistanceLimit", props: c08, why: "inclusive limits of the two query families",
+			subst: map[string]string{"Successor": "Predecessor"}},
+		twinPair{pkg: "s2", recvA: "", fnA: "NewMinDistanceToPointTarget", recvB: "", fnB: "NewMaxDistanceToPointTarget", props: c08, why: "target constructors of the two query families", subst: minMaxSubst},
+		twinPair{pkg: "s2", recvA: "", fnA: "NewMinDistanceToEdgeTarget", recvB: "", fnB: "NewMaxDistanceToEdgeTarget", props: c08, why: "target constructors of the two query families", subst: minMaxSubst},
+		twinPair{pkg: "s2", recvA: "", fnA: "NewMinDistanceToCellTarget", recvB: "", fnB: "NewMaxDistanceToCellTarget", props: c08, why: "target constructors of the two query families", subst: minMaxSubst},
+		twinPair{pkg: "s2", recvA: "CellUnion", fnA: "ContainsCell", recvB: "CellUnion", fnB: "IntersectsCell", props: []string{"C11", "C05"}, why: "cell predicates of a union delegate to the id predicates",
+			subst: map[string]string{"ContainsCellID": "IntersectsCellID"}},
+		twinPair{pkg: "s2", recvA: "Cell", fnA: "ContainsCell", recvB: "Cell", fnB: "IntersectsCell", props: []string{"C12", "C05"}, why: "cell-cell predicates delegate to the id predicates",
+			subst: map[string]string{"Contains": "Intersects"}},
+		twinPair{pkg: "s2", recvA: "RegionUnion", fnA: "ContainsCell", recvB: "RegionUnion", fnB: "IntersectsCell", props: []string{"C05"}, why: "existential region tests",
+			subst: map[string]string{"ContainsCell": "IntersectsCell"}},
+		twinPair{pkg: "s2", recvA: "Cell", fnA: "Vertex", recvB: "Cell", fnB: "Edge", props: []string{"C12"}, why: "normalised vertex and edge accessors",
+			subst: map[string]string{"VertexRaw": "EdgeRaw"}},
+		twinPair{pkg: "s2", recvA: "Cell", fnA: "Distance", recvB: "Cell", fnB: "BoundaryDistance", props: []string{"C12"}, why: "distance to the cell and to its boundary differ only in the interior flag",
+			subst: map[string]string{"true": "false"}},
+		twinPair{pkg: "s2", recvA: "", fnA: "IsDistanceLess", recvB: "", fnB: "IsInteriorDistanceLess", props: []string{"C17"}, why: "threshold forms of the two distance updates",
+			subst: map[string]string{"UpdateMinDistance": "UpdateMinInteriorDistance"}},
+		twinPair{pkg: "s2", recvA: "", fnA: "UpdateMinDistance", recvB: "", fnB: "UpdateMinInteriorDistance", props: []string{"C17"}, why: "the two distance updates",
+			subst: map[string]string{"updateMinDistance": "interiorDist"}},
+		twinPair{pkg: "s2", recvA: "PlateCarreeProjection", fnA: "Unproject", recvB: "MercatorProjection", fnB: "Unproject", props: []string{"C20"}, why: "the two projections", subst: projSubst},
+		twinPair{pkg: "s2", recvA: "PlateCarreeProjection", fnA: "WrapDistance", recvB: "MercatorProjection", fnB: "WrapDistance", props: []string{"C20"}, why: "the two projections", subst: projSubst},
+		twinPair{pkg: "s2", recvA: "PlateCarreeProjection", fnA: "WrapDestination", recvB: "MercatorProjection", fnB: "WrapDestination", props: []string{"C20"}, why: "the two projections", subst: projSubst},
+		twinPair{pkg: "s2", recvA: "PlateCarreeProjection", fnA: "Interpolate", recvB: "MercatorProjection", fnB: "Interpolate", props: []string{"C20"}, why: "the two projections", subst: projSubst},
+		twinPair{pkg: "s1", recvA: "Angle", fnA: "E5", recvB: "Angle", fnB: "E6", props: []string{"C19", "C20"}, why: "fixed-point degree conversions", subst: map[string]string{"1e5": "1e6"}},
+		twinPair{pkg: "s1", recvA: "Angle", fnA: "E6", recvB: "Angle", fnB: "E7", props: []string{"C19", "C20"}, why: "fixed-point degree conversions", subst: map[string]string{"1e6": "1e7"}},
+		twinPair{pkg: "r3", recvA: "Vector", fnA: "Add", recvB: "Vector", fnB: "Sub", props: []string{"C02"}, why: "component-wise sum and difference", subst: map[string]string{"+": "-"}},
+		twinPair{pkg: "r3", recvA: "PreciseVector", fnA: "Add", recvB: "PreciseVector", fnB: "Sub", props: []string{"C02", "C16"}, why: "exact component-wise sum and difference", subst: map[string]string{"precAdd": "precSub"}},
 		twinPair{pkg: "r2", recvA: "Rect", fnA: "Lo", recvB: "Rect", fnB: "Hi", props: []string{"C19"}, why: "low and high corner", subst: map[string]string{"Lo": "Hi"}},
 		twinPair{pkg: "s2", recvA: "Rect", fnA: "Lo", recvB: "Rect", fnB: "Hi", props: []string{"C19"}, why: "low and high corner", subst: map[string]string{"Lo": "Hi"}},
 	)
@@ -299,7 +330,7 @@ func init() {
 		Name: "R-TWIN",
 		Clause: "several properties: functions written as mirror images of one another (closest/furthest-edge targets, u/v clipping, first/last child, loop/polygon cell predicates, the sub-query " +
 			"protocol of the ShapeIndex targets) agree up to their declared substitution. A single-site deviation of one twin - another operator, constant, field or callee - is the classic copy-and-edit slip.",
-		Min: 35,
+		Min: 50,
 		Run: runTwin,
 	})
 }
@@ -360,4 +391,14 @@ func DumpTwinCandidates(c *core.Ctx, minTokens int) {
 	for _, l := range lines {
 		fmt.Println(l)
 	}
+}
+
+func twinConstruct(tp twinPair) string {
+	name := func(r, f string) string {
+		if r == "" {
+			return f
+		}
+		return r + "." + f
+	}
+	return "twin:" + tp.pkg + "." + name(tp.recvA, tp.fnA) + "~" + name(tp.recvB, tp.fnB)
 }
